@@ -69,7 +69,7 @@ Proof. exact g17_operators_guarded. Qed.
 
 (* not vacuous *)
 Theorem C17_api_method_count :
-  List.length (api_methods functions) = 90 /\ List.length (filter takes_checked_arg (api_methods functions)) = 50.
+  List.length (api_methods functions) = 92 /\ List.length (filter takes_checked_arg (api_methods functions)) = 50.
 Proof. exact g17_api_method_count. Qed.
 
 (* the pinned table: what protects each method (own guards, forwarding, always-asserting kernels) *)
